@@ -299,6 +299,32 @@ class SimFS(object):
             return False
         return True
 
+    def os_open(self, path, flags):
+        """Low-level open for reading: returns a real descriptor of an anonymous in-memory file
+        holding the simulated content (so that os.fdopen / os.read / os.fstat work unchanged)."""
+        acc = flags & (os.O_RDONLY | os.O_WRONLY | os.O_RDWR)
+        if acc != os.O_RDONLY or flags & (os.O_CREAT | os.O_TRUNC | os.O_APPEND):
+            raise SimUnsupported("os.open(%r, %#o) for writing on the simulated file system" % (path, flags))
+        self._syscall('open', path)
+        nofollow = bool(flags & getattr(os, 'O_NOFOLLOW', 0))
+        node = self._walk(path, not nofollow)
+        if node.kind == 'l':
+            raise _oserr(errno.ELOOP, path)          # O_NOFOLLOW on a symbolic link
+        if flags & getattr(os, 'O_DIRECTORY', 0) and node.kind != 'd':
+            raise _oserr(errno.ENOTDIR, path)
+        if node.kind == 'd':
+            raise SimUnsupported("os.open of a directory on the simulated file system")
+        if not node.mode & 0o400:
+            raise _oserr(errno.EACCES, path)
+        self._syscall('read', path)
+        fd = os.memfd_create('simfs')
+        data = node.data
+        off = 0
+        while off < len(data):
+            off += os.write(fd, data[off:])
+        os.lseek(fd, 0, os.SEEK_SET)
+        return fd
+
     def open(self, path, mode='r', buffering=-1, encoding=None, errors=None, newline=None,
              closefd=True, opener=None):
         if opener is not None or any(ch in mode for ch in 'wax+'):
@@ -428,7 +454,9 @@ class Mount(object):
         def sim_os_open(path, flags, mode=0o777, *, dir_fd=None):
             if not m.is_sim(path):
                 return real['open'](path, flags, mode, dir_fd=dir_fd)
-            unsupported('os.open')
+            if dir_fd is not None:
+                unsupported('os.open(dir_fd=...)')
+            return fs.os_open(m._s(path), flags)
 
         def sim_open(file, mode='r', buffering=-1, encoding=None, errors=None, newline=None,
                      closefd=True, opener=None):
